@@ -682,6 +682,15 @@ loop:
 		releaseHandled()
 		verifGauges(sc, strms, openStreams, len(closedStrms))
 
+		// A connection that is being wound down ends as soon as the streams its
+		// GOAWAY vouched for are done, whichever event finished the last of
+		// them: a handler, a frame, a connection-level WINDOW_UPDATE that let a
+		// blocked response out, or the request timer giving an unfinished
+		// request up. Checked here, none of those paths can forget to.
+		if isClosing() && canCloseAfterGoAway() {
+			break loop
+		}
+
 		select {
 		case <-sc.closer:
 			// The idle timer fired. The GOAWAY is written here rather than on
